@@ -17,11 +17,25 @@ Definition mon (m : nat) : monoid :=
   end.
 Definition nmon : nat := 2.
 
-Record case := mk {
+(* a third monoid, for LONG sequences only: affine maps x -> a*x + b over Z_65521 packed as a*65521 + b, under
+   composition - associative, not commutative, closed on int64 whatever the length of the fold *)
+Definition VP : Z := 65521.
+Definition aff (u v : Z) : Z := (((u / VP) * (v / VP)) mod VP) * VP + ((u mod VP) * (v / VP) + v mod VP) mod VP.
+Definition vmon : monoid := mkMonoid VP aff.
+(* the elements of a volume case: a first element no other equals (b = 0), then n elements with 2 <= a <= 6, 1 <= b <= 7 *)
+Fixpoint vgen (n : nat) (i : Z) : list Z :=
+  match n with O => [] | S k => ((2 + i mod 5) * VP + (1 + i mod 7)) :: vgen k (i + 1) end.
+Definition vlist (n : nat) (a0 : Z) : list Z := (3 * VP) :: vgen n a0.
+
+Record case := mkx {
   script : list op;
   obs_list : list (res * list snap);     (* what list.Trait did *)
-  obs_slice : list (res * list snap)     (* what slice.Trait did *)
+  obs_slice : list (res * list snap);    (* what slice.Trait did *)
+  vol : list Z                           (* volume case: [n; a0; Fold on list.Trait; Fold on slice.Trait; Length on either]
+                                            for New(vlist n a0...) under vmon; [] for a script case *)
 }.
+Definition mk s a b := mkx s a b [].
+Definition mkv v := mkx [] [] [] v.
 
 (* --- equality of observations --- *)
 Definition res_eqb (a b : res) : bool :=
@@ -64,7 +78,18 @@ Fixpoint adt_run (st : list (list Z)) (s : list op) : list (res * list snap) :=
   end.
 
 Definition required (c : case) := adt_run [] (script c).
-Definition holds (c : case) : bool := obs_eqb (obs_list c) (required c) && obs_eqb (obs_slice c) (required c).
+(* Fold over a long sequence = fold_left Combine from Empty, Length = the number of arguments of New, on both traits *)
+Definition vol_holds (v : list Z) : bool :=
+  match v with
+  | [] => true
+  | [n; a0; fl; fs; ll; ls] =>
+      let l := vlist (Z.to_nat n) a0 in
+      let f := fold_left aff l VP in
+      (fl =? f) && (fs =? f) && (ll =? Z.of_nat (length l)) && (ls =? Z.of_nat (length l))
+  | _ => false
+  end.
+Definition holds (c : case) : bool :=
+  obs_eqb (obs_list c) (required c) && obs_eqb (obs_slice c) (required c) && vol_holds (vol c).
 
 Definition violations (cs : list case) : list N := idx_where (fun c => negb (holds c)) 0%N cs.
 
@@ -76,4 +101,6 @@ Definition digest (cs : list case) : list (N * N) :=
     (1%N, fold_left N.add (map (fun c => N.of_nat (length (script c))) cs) 0%N);
     (2%N, fold_left N.add (map (fun c => count_panics (required c)) cs) 0%N);
     (3%N, fold_left N.max (map (fun c => fold_left N.max (map (fun x => fold_left N.max (map (fun s => Z.to_N (sn_len s)) (snd x)) 0%N) (required c)) 0%N) cs) 0%N);
-    (4%N, fold_left N.add (map (fun c => fold_left N.add (map (fun x => N.of_nat (length (snd x))) (required c)) 0%N) cs) 0%N) ].
+    (4%N, fold_left N.add (map (fun c => fold_left N.add (map (fun x => N.of_nat (length (snd x))) (required c)) 0%N) cs) 0%N);
+    (5%N, count_where (fun c => match vol c with [] => false | _ => true end) cs);
+    (6%N, fold_left N.add (map (fun c => match vol c with n :: _ => Z.to_N n | [] => 0%N end) cs) 0%N) ].
